@@ -12,7 +12,7 @@ import collections, json, os, random, subprocess, sys, time
 sys.path.insert(0, os.path.dirname(os.path.abspath(__file__)))
 import common
 common.ensure_impl_python()
-import query_nets, query_oracle as qo, query_corr as qc
+import query_nets, query_oracle as qo, query_corr as qc, query_enum as qe
 import ir_run
 
 PROP = 'C13'
@@ -21,6 +21,10 @@ LOCAL_FINDINGS = os.path.join(CORPUS_DIR, 'known_findings_query.json')
 STAGE_A_FUNCS = ('get_libraries', 'get_definitions', 'get_instances', 'get_ports', 'get_cables')
 COQ_CHAIN = ['Query/Glob.v', 'Query/Regex.v', 'Query/Patterns.v', 'Query/Filter.v', 'Proofs/QueryGlob.v',
              'Proofs/QueryRegex.v', 'Proofs/QueryFilterA.v', 'Proofs/QueryFilterB.v', 'Proofs/QueryFilter.v',
+             'Query/Enum.v', 'Query/EnumSpec.v', 'Proofs/QueryEnumWL.v', 'Proofs/QueryEnumBase.v', 'Proofs/QueryEnumView.v',
+             'Proofs/QueryEnumInst.v', 'Proofs/QueryEnumPorts.v', 'Proofs/QueryEnumNetl.v', 'Proofs/QueryEnumPins.v',
+             'Proofs/QueryEnumDefs.v', 'Proofs/QueryEnumLibs.v', 'Proofs/QueryEnumCables.v', 'Proofs/QueryEnumFull.v', 'Proofs/QueryEnumEx.v',
+             'Proofs/QueryEnumTerm.v', 'Proofs/QueryEnumWires.v', 'Proofs/QueryEnumWiresSpec.v',
              'Extract/ExtractQuery.v']
 
 
@@ -178,14 +182,15 @@ def run_oracle_case(w, rng, policy, case, stats, n_values=2):
 
 def process_world(args):
     """worker: one netlist. -> dict(stats, oracle failures, stage disagreements, ops, size...)"""
-    seed, c, frac, nstage = args
+    seed, c, frac, nstage, nenum = args
     stats = collections.Counter()
     rng, policy, w, ops, src = gen_world(seed, c)
-    res = dict(c=c, policy=policy, source=src, ops=ops, fails=[], stage_bad=[], nobj=len(w.objs))
+    res = dict(c=c, policy=policy, source=src, ops=ops, fails=[], stage_bad=[], enum_bad=[], nobj=len(w.objs))
     try:
         stats['netlist:%s:%s' % (src, policy)] += 1
         stats['objects_%s' % ('<40' if len(w.objs) < 40 else '40-99' if len(w.objs) < 100 else '100-249' if len(w.objs) < 250 else '250+')] += 1
         res['stage_bad'] = qc.check_stage(w, rng, policy, nstage, stats)
+        res['enum_bad'] = qe.check_enum(w, ops, random.Random('%d/query/enum/%d' % (seed, c)), policy, nenum, stats)
         for case in oracle_cases(w, rng, frac):
             for f in run_oracle_case(w, rng, policy, case, stats):
                 f['signature'] = signature(f)
@@ -234,6 +239,84 @@ def kernel_crosscheck(rng, n, stats):
         return [dict(level='kernel', error='parsed %d answers for %d cases' % (len(kern), len(cases)))]
     return [dict(level='kernel', pattern=c[0], value=c[1], is_case=c[2], is_re=c[3], kernel=k, extracted=e)
             for c, k, e in zip(cases, kern, ext) if k != e]
+
+
+
+# the netlist `ex` of coq/theories/Proofs/QueryEnumEx.v as op lines (same history as ex_ops there)
+EX_OPS = ["new netlist 110 0", "create libs 0 76 0 0 ~", "create defs 1 108,101,97,102 0 0 ~", "create ports 2 97 0 1 ~",
+          "create defs 1 109,105,100 0 0 ~", "create ports 5 112 0 1 ~", "create cables 5 99 0 1 ~", "create children 5 97 0 0 2",
+          "create children 5 97,98 0 0 2", "connect 9 I7 ~", "connect 9 O10.4 ~", "create libs 0 87 0 0 ~",
+          "create defs 12 116,111,112 0 0 ~", "create children 13 117 0 0 5", "create children 13 97 0 0 2", "settop 0 D13"]
+
+
+def kernel_crosscheck_enum(rng, n, stats):
+    """whole queries on the netlist ex: kernel evaluation (vm_compute inside coqc) against the extracted driver"""
+    import re as _re, shutil
+    roots = ['E%d' % i for i in range(17)] + ['O10.4', 'O14.7', 'H16', 'H16/14', 'H16/14/10', 'H16/15', 'D']
+    names = ['n', 'L', 'leaf', 'a', 'mid', 'p', 'c', 'ab', 'W', 'top', 'u']
+
+    def lit(s_):
+        return '[' + ';'.join(str(ord(ch)) for ch in s_) + ']%N' if s_ else '(@nil N)'
+
+    def coq_root(tok):
+        if tok == 'D':
+            return 'IDet'
+        if tok[0] == 'E':
+            return 'IE %s' % tok[1:]
+        if tok[0] == 'O':
+            a, b_ = tok[1:].split('.')
+            return 'IO %s %s' % (a, b_)
+        return 'IH [%s]' % ';'.join(reversed(tok[1:].split('/')))   # the model is leaf first
+    terms, lines = [], []
+    for _ in range(n):
+        fn = rng.choice(['instances', 'definitions', 'libraries', 'ports', 'netlists', 'cables', 'wires'])
+        root = rng.choice(roots)
+        rec, reg = rng.random() < 0.6, rng.random() < 0.7
+        sel = rng.choice(['INSIDE', 'OUTSIDE']) if fn in ('instances', 'definitions', 'libraries') else rng.choice(qo.SEL4)
+        v = rng.choice(names)
+        pats = rng.choice([['*'], [v], [v[:1] + '*'], [v, v[:1] + '*'], ['?' + v[1:]], [v.swapcase()]])
+        ic = rng.random() < 0.7
+        opt = '(mkQ %s %s false str_NAME (fun _ => true))' % (str(reg).lower(), str(ic).lower())
+        cpats = '[' + ';'.join(lit(p_) for p_ in pats) + ']'
+        csel = {'INSIDE': 'SInside', 'OUTSIDE': 'SOutside', 'BOTH': 'SBoth', 'ALL': 'SAll'}[sel]
+        inside = 'true' if sel == 'INSIDE' else 'false'
+        r = '[%s]' % coq_root(root)
+        if fn in ('instances', 'definitions', 'libraries'):
+            terms.append('query_%s ex %s 200 %s %s %s %s' % (fn, opt, r, str(rec).lower(), inside, cpats))
+        elif fn in ('ports', 'netlists'):
+            terms.append('query_%s ex %s 200 %s %s' % (fn, opt, r, cpats))
+        elif fn == 'cables':
+            terms.append('query_cables ex %s 200 %s %s %s %s' % (opt, r, str(rec).lower(), csel, cpats))
+        else:
+            terms.append('query_wires ex (fun _ => true) 200 %s %s %s' % (r, str(rec).lower(), csel))
+        lines.append('F %s %s %s 0 %s %s 0 0 %s %d %s 1 %s' % (fn, qc.b(reg), qc.b(ic), qc.b(rec), sel, qc.tok_of_s('.NAME'), len(pats),
+                                                           ' '.join(qc.tok_of_s(p_) for p_ in pats), root))
+    src = ('From Coq Require Import List NArith.\nFrom SV Require Import Base.Base IR.State Hier.Trace Query.Filter Query.Enum Proofs.QueryEnumEx.\n'
+           'Import ListNotations.\nEval vm_compute in [\n%s].\n' % ';\n'.join(terms))
+    d = '/tmp/query_kernel_enum_%d' % os.getpid()
+    os.makedirs(d, exist_ok=True)
+    path = os.path.join(d, 'kernel_enum.v')
+    open(path, 'w').write(src)
+    r = subprocess.run(['timeout', '600', 'coqc', '-R', 'theories', 'SV', path], cwd=common.COQ, capture_output=True, text=True)
+    shutil.rmtree(d, ignore_errors=True)
+    if r.returncode != 0:
+        return [dict(level='kernel-enum', error=(r.stdout + r.stderr)[-400:])]
+    body = ' '.join(r.stdout.split())
+    got = _re.findall(r'WOk \[([^\]]*)\]|(WFuel)|(WErr)', body.split(':', 1)[0] if False else body)
+    kern = []
+    for lst, fu, er in got:
+        if fu:
+            kern.append('FUEL')
+        elif er:
+            kern.append('ERR key')
+        else:
+            ids = [x.strip() for x in lst.split(';') if x.strip()]
+            kern.append(','.join(sorted(ids)) or '-')
+    ext = [qe.norm(x) for x in qc.run_model(['reset'] + ['op ' + o for o in EX_OPS] + lines)[1 + len(EX_OPS):]]
+    stats['kernel_enum_evals'] += len(lines)
+    if len(kern) != len(lines):
+        return [dict(level='kernel-enum', error='parsed %d answers for %d requests' % (len(kern), len(lines)))]
+    return [dict(level='kernel-enum', request=l, kernel=k, extracted=e) for l, k, e in zip(lines, kern, ext) if k != e]
 
 
 # ------------------------------------------------------------------------------------------------
@@ -370,6 +453,35 @@ def search_from_stage(w_ops, desc, stats, seed):
 
 # ------------------------------------------------------------------------------------------------
 
+def search_from_enum(w_ops, desc, stats, seed):
+    """a whole-query disagreement: evaluate the oracle on the same query and on neighbours"""
+    if 'function' not in desc or desc.get('root') == 'D':
+        return None
+    rng = random.Random('%d/query/search-enum' % seed)
+    case = dict(function=desc['function'], root=desc['root'], key=desc.get('key'), pats=desc.get('pats'), is_case=desc.get('is_case', True),
+                is_re=desc.get('is_re', False), policy=desc.get('policy', 'DEFAULT'), recursive=desc.get('recursive'),
+                selection=desc.get('selection'), shape=desc.get('shape'))
+    try:
+        fails = replay_oracle(w_ops, case, stats)
+        fails = [f for f in fails if f['signature'].startswith('unclassified')]
+        if fails:
+            return dict(ops=w_ops, case=case, failure=fails[0])
+        w = query_nets.rebuild(w_ops)
+        try:
+            for _ in range(12):
+                fs = run_oracle_case(w, rng, case['policy'], (case['function'], case['root'], case.get('selection'), case.get('recursive'), case['key']), stats, 3)
+                for f in fs:
+                    f['signature'] = signature(f)
+                fs = [f for f in fs if f['signature'].startswith('unclassified')]
+                if fs:
+                    return dict(ops=w_ops, case=dict((k, fs[0].get(k)) for k in case), failure=fs[0])
+        finally:
+            w.close()
+    except Exception:
+        pass
+    return None
+
+
 def strip(f):
     return dict((k, v) for k, v in f.items() if k not in ('stats',))
 
@@ -455,7 +567,8 @@ def run(prop, tier, seed, replay):
                                'disagreements': bad[:8], 'matcher_case': bad[0]}, found_input=False)
 
     if built and tier != 'quick':
-        kb = kernel_crosscheck(random.Random('%d/query/kernel' % seed), 120, stats)
+        kb = kernel_crosscheck(random.Random('%d/query/kernel' % seed), 120, stats) + \
+            kernel_crosscheck_enum(random.Random('%d/query/kernel-enum' % seed), 150, stats)
         if kb:
             n_disagree += len(kb)
             rep.violation('kernel-%s' % common.sha(json.dumps(kb[0], default=str)),
@@ -464,8 +577,8 @@ def run(prop, tier, seed, replay):
 
     # ---- 3. netlists: stage-level correspondence + oracle ----
     if built:
-        ncases, frac, nstage = (36, 0.22, 40) if tier == 'quick' else (4200, 0.5, 120)
-        jobs = [(seed, c, frac, nstage) for c in range(ncases)]
+        ncases, frac, nstage, nenum = (36, 0.22, 40, 320) if tier == 'quick' else (4200, 0.5, 120, 330)
+        jobs = [(seed, c, frac, nstage, nenum) for c in range(ncases)]
         if tier == 'quick':
             import multiprocessing as mp
             with mp.get_context('fork').Pool(min(8, os.cpu_count() or 1)) as pool:
@@ -498,6 +611,23 @@ def run(prop, tier, seed, replay):
                                   {'kind': 'correspondence-broken', 'engine': 'query',
                                    'what': 'model (coq/theories/Query/Filter.v; theorems of Props/C13.v) and spydrnet/util/%s.py disagree' % d['function'],
                                    'ops': [' '.join(o) for o in res['ops']], 'stage_case': d}, found_input=False)
+            for d in res['enum_bad']:
+                n_disagree += 1
+                if reported >= 4:
+                    continue
+                reported += 1
+                found = search_from_enum(res['ops'], d, stats, seed)
+                if found:
+                    rep.violation('enum-%s' % common.sha(json.dumps(found['case'], default=str)),
+                                  {'kind': 'property-violation-on-implementation', 'engine': 'query', 'source': 'whole-query correspondence',
+                                   'ops': [' '.join(o) for o in found['ops']], 'case': found['case'], 'failure': strip(found['failure']),
+                                   'correspondence': d})
+                else:
+                    rep.violation('enum-%s' % common.sha(json.dumps(d, default=str)),
+                                  {'kind': 'correspondence-broken', 'engine': 'query',
+                                   'what': 'model (coq/theories/Query/Enum.v + Filter.v: candidate enumeration + filter stages; theorems of '
+                                           'Props/C13.v) and spydrnet/util/%s.py disagree on the result list' % d.get('function', 'get_*'),
+                                   'ops': [' '.join(o) for o in res['ops']], 'enum_case': d}, found_input=False)
             by_sig = {}
             for f in res['fails']:
                 by_sig.setdefault(f['signature'], []).append(f)
@@ -529,12 +659,13 @@ def run(prop, tier, seed, replay):
         'theorems': theorems,
         'print_assumptions': proof['assumptions'][-3000:],
         'programs': n_programs,
-        'disagreements_checked': stats['match_evals'] + stats['absolute_evals'] + stats['escape_evals'] + stats['stage_evals'],
+        'disagreements_checked': stats['match_evals'] + stats['absolute_evals'] + stats['escape_evals'] + stats['stage_evals'] + stats['enum_evals'],
         'evaluations': stats['calls'],
         'distinct_nontrivial': len(distinct),
         'rule': 'programs = patterns compared at matcher level + netlists + corpus files; a netlist is counted as distinct by the hash '
                 'of its op history (all have > 20 ops); disagreements_checked = (pattern,value,flags) matcher comparisons + absolute-pattern '
-                'comparisons + re.escape comparisons + stage-level query comparisons (results compared as multisets); evaluations = calls of '
+                'comparisons + re.escape comparisons + stage-level query comparisons + whole-query comparisons (candidate enumeration + stages of the model '
+                'vs the real function, every kind of root, results compared as multisets); evaluations = calls of '
                 'the real query functions made by the oracle',
         'samples': samples or [{'note': 'no generated sample'}],
         'exhaustive': False, 'exhaustive_part': ('matcher level: every glob pattern of length <= %d over %r and every regex text of length <= %d over %r against every value '
@@ -558,12 +689,14 @@ def trusted_base(proof):
         'Coq 8.16.1 kernel (coqc); vm_compute only inside Example / witness lemmas; no native_compute',
         'Print Assumptions of every theorem in Props/C13.v: ' + ('Closed under the global context' if 'Axioms' not in proof['assumptions'] else 'see print_assumptions'),
         'extraction: ExtrOcamlBasic only; nat/N/positive extracted as inductives; no Extract Constant',
-        'ocaml/driver_query.ml (parsing of request lines, closures for key/hname/lookup tables, printing)',
+        'ocaml/driver_query.ml (parsing of request lines and op lines, closures for key/hname/lookup tables, memoisation of the state maps, printing)',
         'harness/query_corr.py (reads the candidate lists of a root off the netlist for the stage-level comparison; chooses the lookup mode '
         'scan / case-folding / none by policy and key), harness/query_oracle.py (own wildcard matcher, Python re as the definition of regex '
         'matching), harness/query_nets.py, harness/netgen.py, harness/ir_world.py',
         'the models (coq/theories/Query/*.v) are hand-written: tied to /repo only by the correspondence run reported in this file; the '
-        'candidate enumeration of the 13 get_* functions is not modelled and is covered only by the metamorphic oracle',
+        'candidate enumeration of the 8 non-hierarchical get_* functions is modelled (Query/Enum.v) and compared with the real functions on '
+        'every run (harness/query_enum.py: netlist rebuilt in the driver from its op history by the IR model, roots of every kind); the '
+        'candidate enumeration of the 5 hierarchical get_h* functions is not modelled and is covered only by the metamorphic oracle',
         'CPython 3.12 fnmatch.translate / re semantics outside the compared samples',
     ]
 
@@ -573,7 +706,17 @@ def assumptions():
         'strings are ASCII; values under a key are str or absent (None = absent)',
         'regex patterns outside the modelled fragment (anchors, {m,n}, lazy/possessive quantifiers, (?..), \\d \\w ...) are not compared with the model; the oracle still uses Python re for them',
         'the empty string as a pattern is excluded from the filter theorems (hypothesis ~ In [] pats)',
-        'lookups_ok (fast lookup = scan, sibling values unique) is property C10\'s invariant; it is a hypothesis here',
+        'lookups_ok / LookOK (fast lookup = scan, sibling values unique) is property C10\'s invariant; it is a hypothesis here (derived from '
+        'C10\'s table invariant for the key .NAME: C13_lookup_hypothesis_for_names)',
+        'the enumeration theorems assume the structural invariants QWF (C01/C02 invariants, well-kinded ids; hold in every state reached by '
+        'editing calls: C13_reachable_states) and speak about runs that end within the fuel (WOk); that some fuel suffices is proved for '
+        'get_netlists / get_ports / get_pins in every such state and for get_instances / get_definitions when the design hierarchy is acyclic '
+        '(C13_get_*_terminates); not proved for get_libraries, get_cables, get_wires (their walks rely on visited sets)',
+        'get_cables / get_wires with selection ALL (cross-hierarchy closure): the enumeration is modelled and compared with the implementation '
+        'on every run, but only the clauses that do not depend on it are proved (no duplicates, pattern = filter of unfiltered, pattern order, '
+        'fast lookup = scan, callback on top); for INSIDE / OUTSIDE / BOTH the enumeration is proved exact (C13_get_cables, C13_get_wires)',
+        'get_libraries(instance, selection=OUTSIDE, recursive=True): the code ignores recursive; the model follows the code and the theorem '
+        'excludes exactly that case (C13_get_libraries_refuted, C13_get_libraries_instance_outside)',
     ]
 
 
@@ -617,6 +760,20 @@ def replay_obj(obj, stats=None):
                     out['disagreements'].append(dict(level='stage', impl=impl, model=model, request=line))
                 if 'expect_result' in obj and impl != obj['expect_result']:
                     out['disagreements'].append(dict(level='stage', impl=impl, expected=obj['expect_result']))
+        finally:
+            w.close()
+        return out
+    if 'enum_case' in obj or kind == 'enum':
+        d = obj.get('enum_case', obj.get('case'))
+        w = query_nets.rebuild(ops)
+        try:
+            impl, model = qe.replay_case(w, ops, d)
+            stats['enum_evals'] += 1
+            if impl != model:
+                out['disagreements'].append(dict(level='enum', impl=impl, model=model, request=d.get('request')))
+            if 'expect_result' in obj and impl != obj['expect_result']:
+                out['disagreements'].append(dict(level='enum', impl=impl, expected=obj['expect_result'],
+                                                 note='the implementation no longer shows the recorded behaviour of this witness'))
         finally:
             w.close()
         return out
